@@ -13,7 +13,8 @@ namespace sim
 {
 struct CodecvtCtl
 {
-  long window = 0;    // 0: unlimited; else output units offered to the real facet per call
+  long window = 0;    // 0: unlimited; else output units offered to the real facet per call (first 3 calls)
+  long windowed_calls = 0;
   long error_at = -1; // -1: never; else report error when this many input units have been consumed
   long stall_at = -1; // -1: never; else, once this many input units have been consumed, every call
                       // returns `partial` without progress (the rest is an incomplete sequence)
@@ -94,11 +95,18 @@ protected:
       }
     }
     To *te = to_end;
-    if (c.window > 0)
+    // only the first calls of a conversion are windowed: a facet that says `partial` with room to
+    // spare is legal but unlike any real one, and an implementation may take a `partial` with
+    // progress for "the output range was full" and enlarge it - geometrically, which an endless
+    // series of such answers would turn into an explosion that no real facet can cause
+    if (c.window > 0 && c.windowed_calls < 3)
     {
       long const w = std::max<long>(c.window, real_.max_length());
       if (to_end - to > w)
+      {
         te = to + w;
+        ++c.windowed_calls;
+      }
     }
     result r = call(from, fe, from_next, to, te, to_next);
     c.consumed += from_next - from;
